@@ -1,2 +1,3 @@
 pub mod c01;
 pub mod c02;
+pub mod c08;
